@@ -16,7 +16,7 @@ import c01
 
 ENV = json.load(open(os.environ.get('VERIF_ENVELOPES') or os.path.join(vlib.VERIF, 'envelopes.json')))
 K_HONEST = ENV['honesty']['K']
-TIGHT = ENV['honesty'].get('tight', dict(K=1e4, C=1e3))
+TIGHT = ENV['honesty'].get('tight', dict(K=1e4, C=1e4, C_one_sided=1e6))
 EPS = np.finfo(float).eps
 RECS = None
 MREC = None
@@ -283,7 +283,7 @@ def run(tier, rep):
             # settled on, eps * (size of f) / h^n, the estimate has to cover the error up to the fixed factor K_tight
             hh = extra['h'][min(len(extra['h']) - 1, vals.index(v))] if extra['h'] else 0.0
             if hh > 0 and not c01.cell_suffix(r, m, n):
-                rfloor = TIGHT['C'] * EPS * max(extra['maxf'], s0j) / hh ** n + 1e-12 * abs(exact)
+                rfloor = TIGHT['C_one_sided' if m in ('forward', 'backward') else 'C'] * EPS * max(extra['maxf'], s0j) / hh ** n + 1e-12 * abs(exact)
                 ntight += 1
                 if err > rfloor:
                     tight_beyond += 1
